@@ -49,6 +49,11 @@ THEOREMS += ["Wtf.C04." + t for t in ("hostOnly_is_default", "legacy_pipeline_mo
                                       "search_with_fuzzy_platform")]
 ASSERTIONS += ["legacyscore:shape:" + s for s in ("SearchWithOptions", "SearchWithPipelineOptions", "db.calculateCommandScore", "isPipelineCommand",
                                                   "isCrossPlatformTool", "SearchWithFuzzy", "performFuzzySearch", "combineAndDeduplicateResults")]
+PROP["level_text"] += (" Props/C04b.lean, on the correspondence-validated models of the legacy entry points (domain legacy2): pipeline clause for "
+                       "SearchWithPipelineOptions with the scorer modelled; every result of SearchWithOptions satisfies `Allowed` for the host with no "
+                       "platform request; every result of SearchWithFuzzy does so or passes the gate of the caller's options (typo half).")
+PROP["assumptions"] += ["SearchWithOptions / exact half of SearchWithFuzzy (exported, unused by CLI and cache): only the host gate is claimed; the options "
+                        "Platforms / NoCrossPlatform / AllPlatforms / PipelineOnly are not read there (counted under out-of-scope:* tags)"]
 
 
 def nontrivial(tags, ops, impl):
